@@ -51,6 +51,15 @@ def scenarios(tier, seed=0):
     for name in (names if tier != "quick" else sub):
         spec = A.catalogue_spec(name, soil="custom3", dz="nonuni", word="warm", irr="smt")
         yield {"kind": "spec", "spec": spec, "label": ["restrictive", name]}
+    # keyword overrides of the envelope parameters, with and without pre-season days (start before planting)
+    over = [{"Zmin": 0.5, "Zmax": 1.2}, {"Zmin": 0.15, "Zmax": 0.9, "CCx": 0.7}, {"HI0": 0.3, "dHI0": 5}, {"Tbase": 6.0, "Tupp": 28.0}, {"Aer": 12, "Zmin": 0.45}]
+    for name in (sub if tier == "quick" else names):
+        for oi, kw in enumerate(over):
+            if tier == "quick" and (names.index(name) + oi) % 2:
+                continue
+            for start in ("2001/05/01", "2001/04/21"):
+                spec = A.catalogue_spec(name, soil="SandyLoam", word="warm", cropkw=kw, start=start)
+                yield {"kind": "spec", "spec": spec, "label": ["override", name, kw, start]}
     # scaled crops with a single deviating day at every day of the season
     scaled = ["maize.2", "potato.2", "cotton.2"] if tier == "quick" else ["maize.2", "potato.2", "cotton.2", "rice.2", "wheat.15", "soybean.2", "tomato.2"]
     syms = ("C", "H") if tier == "quick" else ("C", "H", "D", "S")
